@@ -222,7 +222,15 @@ func (c *pchecker) redir(what string, r *ast.Redir) (ast.Pos, ast.Pos) {
 		c.spell(what+".N", r.N.ValuePos, r.N.Value)
 		// the operator follows the io-number directly
 		if want := r.N.End(); r.OpPos != want {
-			c.errf("%s.OpPos: %s, want %s (directly after the io-number)", what, ps(r.OpPos), ps(want))
+			// only line continuations may stand in between
+			between, ok := c.s.at(want, 1<<20)
+			for ok && strings.HasPrefix(between, "\\\n") {
+				between = between[2:]
+				want = ast.NewPos(want.Line()+1, 1)
+			}
+			if r.OpPos != want {
+				c.errf("%s.OpPos: %s, want %s (directly after the io-number)", what, ps(r.OpPos), ps(want))
+			}
 		}
 	}
 	c.spell(what+".OpPos", r.OpPos, r.Op)
